@@ -25,7 +25,7 @@ ASSUMPTIONS = [
     'of the accumulated patch followed by the transformation functions; both sides are compared after removing empty mappings',
     'handlers run in registration order (all_at_once lifecycle), so warnings and patch actions are ordered by registration',
 ]
-BUDGET = {'quick': 400, 'thorough': 20000}
+BUDGET = {'quick': 1000, 'thorough': 20000}
 FUZZ_RUNS = {'thorough': 8000}     # inputs per process of the coverage-guided stage (tools/fuzz.py), 16 processes
 MAX_SHARDS = 16
 
